@@ -6,6 +6,8 @@ import PortusModel.Driver.Bkd
 import PortusModel.Driver.Ctl
 import PortusModel.Props.C06
 import PortusModel.Props.C10
+import PortusModel.Props.C13
+import PortusModel.Driver.Lang
 /-! `ORC <id> Cnn <input> <observed…>`: evaluate the property oracle `Cnn.check` on behaviour observed
 from the implementation. Answers `PASS` or `FAIL`. -/
 namespace Portus.Driver
@@ -154,5 +156,50 @@ def orcC10 (args : List String) : String :=
   | ["PANIC"] => passFail (C10.check .panic)
   | ["ABORT"] => passFail (C10.check .panic)
   | _ => "FAIL unparsable-observation"
+
+/-- inverse of `showTy` -/
+def parseTy (s : String) : Option Lang.Ty :=
+  if s = "bool?" then some (.bool none) else if s = "bool1" then some (.bool (some true))
+  else if s = "bool0" then some (.bool (some false)) else if s = "num?" then some (.num none)
+  else if s = "none" then some .none
+  else if s.startsWith "num" then (s.drop 3).toString.toNat?.map fun n => .num (some n)
+  else if s.startsWith "name" then (hexToName (let h := (s.drop 4).toString; if h.isEmpty then "-" else h)).map .name
+  else none
+
+/-- inverse of `showReg` -/
+def parseRegFull (s : String) : Option Lang.Reg :=
+  match s.splitOn ":" with
+  | [r] => parseReg r
+  | [r, t] => do
+    let t ← parseTy t
+    match ← parseReg r with
+    | .control i _ v => some (.control i t v)
+    | .report i _ v => some (.report i t v)
+    | .implicit i _ => some (.implicit i t)
+    | .local i _ => some (.local i t)
+    | .primitive i _ => some (.primitive i t)
+    | .tmp i _ => some (.tmp i t)
+    | x => some x
+  | _ => none
+
+def orcC13 (args : List String) : String :=
+  match splitAt "@@" args with
+  | [[src, upd, names], obs] =>
+    match obs with
+    | ["OK", _img, regs] =>
+      match fromHex src, parseNamedUpdates upd, parseNames names with
+      | some srcb, some upd, some names =>
+        match utf8Decode srcb with
+        | none => "PASS"
+        | some cps =>
+          let rs := if regs = "-" then [] else regs.splitOn ";"
+          if rs.length ≠ names.length then "FAIL scope-listing-length" else
+          match rs.mapM (fun r => if r = "?" then some none else (parseRegFull r).map some) with
+          | some os => passFail (C13.check (cps.map Char.ofNat) upd (names.zip os))
+          | none => "FAIL unparsable-observation"
+      | _, _, _ => "BADARG"
+    | ["ERR"] => "PASS"
+    | _ => "FAIL"
+  | _ => "BADARG"
 
 end Portus.Driver
